@@ -5,10 +5,10 @@
 (* tier, all 4096 sets in the thorough tier): chains, trees, diamonds,     *)
 (* cycles through and beside the root, disconnected parts; listings: both  *)
 (* directions of a fixed order, and every permutation for directories of   *)
-(* <= 3 files; three families of edit histories along the edges (class    *)
+(* <= 3 files; four families of edit histories along the edges (class     *)
 (* additions; comment additions that conflict when two meet on a path;     *)
 (* inner classes whose names are contracted in the diffs and extended in   *)
-(* the answer).  A family with colliding names (a and a~b) is explored for *)
+(* the answer; members added below a class that has no named name).  A family with colliding names (a and a~b) is explored for *)
 (* totality only.                                                          *)
 (***************************************************************************)
 EXTENDS VersionGraph, Json, SequencesExt
@@ -27,7 +27,8 @@ NSM == <<"intermediary", "named">>
 (* the root file (extended inner names, as published) *)
 RootTree == Root(NSM, <<>>, MapOf({
     Class(<<"K", "x">>, <<>>, MapOf({Field(<<"f", "fx">>, "I", <<>>)})),
-    Class(<<"K$I", "x$i">>, <<>>, <<>>)}))
+    Class(<<"K$I", "x$i">>, <<>>, <<>>),
+    Class(<<"U", "">>, <<>>, MapOf({Field(<<"g", "gx">>, "I", <<>>)}))}))      \* a class without a named name that has a named member
 
 (* the diff on edge e of history family h; eid makes every edge's contribution distinguishable *)
 EdgeId(e) == (IF e[1] = "a" THEN "A" ELSE IF e[1] = "b" THEN "B" ELSE IF e[1] = "c~d" THEN "C" ELSE "E")
@@ -39,6 +40,9 @@ EdgeDiff(e, h) ==
       [] h = 2 -> D!DRoot(D!None, D!None, AddClass("N" \o id, "n" \o id) @@
                           ("c K" :> D!DNode(D!DKey("c", "K", "", 0), D!None, D!Add(<<"doc " \o id>>), <<>>)))
       [] h = 0 -> D!DRoot(D!None, D!None, <<>>)                           \* graph-only family: empty diffs
+      [] h = 4 -> D!DRoot(D!None, D!None,                              \* a member added below the class that has no named name
+                          ("c U" :> D!DNode(D!DKey("c", "U", "", 0), D!None, D!None,
+                               (("f n" \o id \o " I") :> D!DNode(D!DKey("f", "n" \o id, "I", 0), D!Add("x" \o id), D!None, <<>>)))))
       [] h = 3 -> D!DRoot(D!None, D!None, AddClass("K$I$" \o id, "in" \o id) @@
                           ("c K$I" :> D!DNode(D!DKey("c", "K$I", "", 0), D!Edit("i", "j" \o id), D!None, <<>>)))
 
@@ -80,7 +84,7 @@ PickGraphOnly ==
     /\ phase' = "case"
 PickRest ==
     /\ phase = "edges"
-    /\ \E roots \in {{}} \cup {{r} : r \in V} \cup {{"a", "b"}}, h \in 1..3, extra \in {{}, {"README.md"}, {"a#b.txt", "broken.tinydiff"}} :
+    /\ \E roots \in {{}} \cup {{r} : r \in V} \cup {{"a", "b"}}, h \in 1..4, extra \in {{}, {"README.md"}, {"a#b.txt", "broken.tinydiff"}} :
         LET files == {r \o TINY : r \in roots} \cup {FileOfEdge(e) : e \in dir.edges} \cup extra
             base == SetToSeq(files)
         IN /\ (extra # {} => h = 1 /\ Cardinality(dir.edges) <= 1)
